@@ -264,7 +264,11 @@ namespace nmtools::utils
                 using t_type = meta::get_element_type_t<T>;
                 using u_type = meta::get_element_type_t<U>;
                 using common_t = meta::common_type_t<t_type,u_type,E>;
-                auto abs_diff = constexpr_fabs(static_cast<t_type>(t)-static_cast<u_type>(u));
+                // take the difference in the common type, larger minus smaller: subtracting in the operand types wraps around
+                // for unsigned operands (which made the result depend on the operand order)
+                const auto common_t_ = static_cast<common_t>(t);
+                const auto common_u_ = static_cast<common_t>(u);
+                auto abs_diff = (common_t_ > common_u_ ? common_t_ - common_u_ : common_u_ - common_t_);
                 auto result = abs_diff < static_cast<common_t>(eps);
                 #if NMTOOLS_ISCLOSE_NAN_HANDLING
                 result = result || (math::isnan(static_cast<common_t>(t)) && math::isnan(static_cast<common_t>(u)));
